@@ -94,11 +94,14 @@ pub fn exec(toks: &[&str]) -> String {
             let (y0, y1): (u32, u32) = (y0.parse().unwrap(), y1.parse().unwrap());
             let mut n = 0u64;
             let mut bad = 0u64;
+            let mut tsum = 0u64;
             for y in y0..=y1 { for m in 1..=12 { for d in 1..=31 {
                 if !valid_date(y, m, d) { continue; }
                 for (h, mi, s) in [(0, 0, 0), (12, 34, 56), (23, 59, 59)] {
                     n += 1;
                     let t = Time::utc(y as i32, m, d, h, mi, s);
+                    // the instant chrono gives the civil time, summed modulo 2^64 (model: Rpki/Model/Instant.lean)
+                    tsum = tsum.wrapping_add(t.timestamp() as u64);
                     let ok = match encode_time(t) {
                         Some((tag, content)) => {
                             let want_utc = (1950..=2049).contains(&y);
@@ -110,7 +113,7 @@ pub fn exec(toks: &[&str]) -> String {
                     if !ok { bad += 1; }
                 }
             }}}
-            format!("ok {} {}", n, bad)
+            format!("ok {} {} {}", n, bad, tsum)
         }
         ["validity", nb, na, now] => {
             let v = Validity::new(time_of(nb.parse().unwrap()), time_of(na.parse().unwrap()));
